@@ -312,8 +312,11 @@ LOOP:
 		}
 		r.hw = hw
 		segments = r.cl.Segments()
-		hwIdx, hwPos, err := getHWPos(segments, r.hw)
-		if err != nil {
+		hwIdx, hwPos, hwErr := getHWPos(segments, r.hw)
+		if hwErr != nil {
+			// Don't shadow err, otherwise an incomplete read is returned
+			// without an error.
+			err = hwErr
 			break
 		}
 		r.hwPos = hwPos
